@@ -122,12 +122,20 @@ inductive Query
   | header (w : Which) (k : Bytes)   -- RequestHeader / ResponseHeader / EphemeralProperty
   | timeout                          -- Timeout()
   | cid                              -- CorrelationID()
+  | wireReq                          -- FProtocol.WriteRequestHeader(ctx): the header map a reader of the frame decodes
+  | wireResp                         -- FProtocol.WriteResponseHeader(ctx)
+  | toContext                        -- ToContext(ctx): does the context.Context carry a deadline
+  | opId                             -- getOpID(ctx)
   deriving Repr, DecidableEq
 
 inductive Op
   | newProto                                   -- FProtocolFactory.GetProtocol
   | new (cid : Bytes)                          -- NewFContext(cid), cid ≠ ""
-  | clone (c : Nat)                            -- Clone(ctx)
+  | clone (c : Nat) (generic : Bool)           -- Clone(ctx): `generic = false` FContextImpl.Clone (also reached by the
+                                               -- package-level Clone for every FContextWithEphemeralProperties);
+                                               -- `generic = true` the package-level Clone of an FContext that is NOT
+                                               -- FContextWithEphemeralProperties (a foreign implementation): request and
+                                               -- response headers through the accessors, EMPTY ephemeral properties
   | fromRequest (p : Nat) (hdrs : Hdrs)        -- protocol p .ReadRequestHeader() on these wire headers
   | add (c : Nat) (w : Which) (k v : Bytes)    -- AddRequestHeader / AddResponseHeader / AddEphemeralProperty
   | setTimeout (c : Nat) (ns : Int)            -- SetTimeout(time.Duration(ns))
@@ -147,12 +155,24 @@ inductive Obs
   | val (v : Option Bytes)
   | dur (ns : Int)
   | map (m : AMap)
+  | num (n : Nat)
+  | flag (b : Bool)
   deriving Repr, DecidableEq
 
 def query (v : View) : Query → Obs
   | .header w k => .val ((v.sel w).get? k)
   | .timeout => .dur (timeoutOf v.req)
   | .cid => .val (some ((v.req.get? cidHeader).getD []))
+  | .wireReq => .map v.req        -- writeHeader(ctx.RequestHeaders()): a snapshot of the map (codec: C04)
+  | .wireResp => .map v.resp
+  | .toContext => .flag (decide (timeoutOf v.req > 0))
+  | .opId =>
+    match v.req.get? opIdHeader with
+    | none => .err .missingOpId
+    | some x =>
+      match parseU64 x with
+      | some n => .num n
+      | none => .err .badOpId
 
 /-- The effect of one operation on the state. -/
 structure Effect where
@@ -199,7 +219,7 @@ def effect (s : State) : Op → Effect × Obs
     let n := s.heap.length
     let req := newReq cid id
     ({ nextOpId := id, allocs := [req, [], []], ctxs := [⟨n, n + 1, n + 2⟩] }, .created (req.get? opIdHeader))
-  | .clone c =>
+  | .clone c generic =>
     match s.ctxs[c]? with
     | none => (s.noop, .bad)
     | some x =>
@@ -207,7 +227,7 @@ def effect (s : State) : Op → Effect × Obs
       let n := s.heap.length
       let v := viewOf s.heap x
       let req := v.req.set opIdHeader (dec id)
-      ({ nextOpId := id, allocs := [req, v.resp, v.eph], ctxs := [⟨n, n + 1, n + 2⟩] },
+      ({ nextOpId := id, allocs := [req, v.resp, if generic then [] else v.eph], ctxs := [⟨n, n + 1, n + 2⟩] },
        .created (req.get? opIdHeader))
   | .fromRequest p hdrs =>
     match s.protos[p]? with
@@ -268,7 +288,7 @@ def Op.target : Op → Option Nat
 
 /-- Operations that produce a context (each consumes one op id when it succeeds). -/
 def Op.creates : Op → Bool
-  | .new _ | .clone _ | .fromRequest _ _ => true
+  | .new _ | .clone _ _ | .fromRequest _ _ => true
   | _ => false
 
 def creations (ops : List Op) : Nat := (ops.filter Op.creates).length
